@@ -1,7 +1,7 @@
 """C09 - best-adapter choice, repeated rounds and linked adapters follow the stated rules.
 
 Modifier seam: AdapterCutter(adapters, times, action, index=False) on ALL reads over ACGT up to a length, for
-every ordered list of 1-2 (thorough 1-3) adapters from a 16-adapter menu (every type, near-duplicates that tie,
+every ordered list of 1-2 (thorough 1-3) adapters from a 20-adapter menu (every type, near-duplicates that tie,
 linked adapters with every required/optional combination).  Oracle (vf.refpipe): each adapter's own match_to +
 the stated combination rules.  A command-line pass binds the seam to cutadapt --no-index."""
 import itertools
@@ -18,6 +18,9 @@ MENU = [
     ("front", "p1=^AC"), ("back", "s1=GT$"), ("back", "n1=GTAX"), ("front", "r1=AC;rightmost"), ("front", "x1=XTAC"),
     ("back", "l1=^AC...GT"), ("back", "l2=AC...GT"), ("front", "l3=AC...GT"), ("back", "l4=^AC;optional...GT"),
     ("front", "l5=AC...GT;optional"), ("back", "b1=CGTA"),
+    # linked adapters whose parts are long enough to match with an error, a competitor that ties on score with fewer errors,
+    # and a linked adapter whose anchored 3' part can be longer than what the 5' part leaves
+    ("back", "l6=ACG...TGC"), ("back", "b4=GTGC"), ("back", "l7=^AC...GTAC$"),
 ]
 ACTIONS = ["trim", "none", "lowercase", "mask", "retain", "crop"]
 
@@ -174,7 +177,7 @@ def run(tier):
     R.assumptions = ["each single adapter's own match_to result is taken as given (C01/C02 judge it)", "mask/crop with linked adapters "
                      "are documented as unsupported and not enumerated"]
     return R.finish(tot.get("evals", 0), tot.get("nontrivial", 0),
-                    "every ordered list of 1-2 (thorough: + a quarter of all triples) adapters from a 17-entry menu x --times {1,2,3} x "
+                    "every ordered list of 1-2 (thorough: + a quarter of all triples) adapters from a 20-entry menu x --times {1,2,3} x "
                     "actions {trim,none,lowercase,mask,retain,crop} x ALL reads over ACGT up to length 6 (7) with position-unique qualities, at "
                     "the AdapterCutter seam; plus a cli.main pass (--no-index, --rename {adapter_name}) over all ordered pairs; non-trivial "
                     "= at least one adapter matched (multi_round counts reads with >= 2 rounds)",
